@@ -26,22 +26,32 @@ LEVEL = "proof"
 TECHNIQUE = ("Lean 4 proofs over a hand model of DOMStringHelper/DoubleSupport (doubles as exact dyadics, printf/atof as exact "
              "decimal arithmetic) with constants regenerated from the source + correspondence run against the real library "
              "(plain and ASan/UBSan) on bit patterns and strings, judged by an independent exact-arithmetic oracle")
-LEVEL_TEXT = ("Machine-checked: for every string the doValidate state machine accepts exactly the derivations of ws* '-'? Number ws* "
-              "(validate_iff_grammar); for every double the modelled NumberToDOMString yields NaN/Infinity/-Infinity/0 or "
-              "'-' iff the sign bit is set, digits without superfluous leading zero, optionally '.' and digits ending in a non-zero "
-              "digit (toString_format), and stays inside char theBuffer[B] whenever sign+integer digits+1+maxprecision+1 <= B "
-              "(toString_no_overflow; 347 bytes suffice for every double), with the kernel-evaluated overrun witness string(1e90) "
-              "for B<=101; number(s) = nearest double on the atof path and = the digits' value on the integer fast path "
-              "(toDouble_spec_partial, toDouble_fast_path_partial); number(string(x)) = x for integral |x| < 10^8 "
-              "(toString_roundtrip_partial). round/-0/tiny-number deviations are proved as counterexamples and replayed on the "
-              "real code. Model tied to the working tree by the translator (printf table, buffer sizes, thresholds) and by the "
-              "correspondence run (library and ASan/UBSan builds vs Lean driver vs exact-arithmetic oracle).")
-LEVEL_NOTE = ("Trusted: Lean kernel; axioms propext/Classical.choice/Quot.sound only; translate/c18_number_consts.py; the hand "
-              "transcription of NumberToDOMString/doValidate/convertHelper/round (validated by the correspondence run, bounded "
-              "by generator coverage). Modelled, not verified: glibc sprintf(\"%.Nf\") = exact decimal expansion rounded "
-              "half-even, atof = exact value rounded to nearest-even, modf/floor/ceil, x86-64 cvttsd2si for the out-of-range "
-              "int64 cast (UB in C++). Not proved in Lean (sampled only): value-exactness of roundNE, number(string(x)) = x "
-              "(round trip), round = floor(x+1/2) on the exact-sum range.")
+LEVEL_TEXT = ("Machine-checked (Lean 4, 32 audited theorems in Props/C18.lean) over a hand model of DOMStringHelper/DoubleSupport whose "
+              "constants and code variants are regenerated from the source on every run: (1) for every string the doValidate state "
+              "machine accepts exactly the derivations of ws* '-'? Number ws* (validate_iff_grammar); number(s) = nearest double on "
+              "the atof path and, with the repaired fast path, on the integer fast path including the sign of zero "
+              "(toDouble_spec_partial, toDouble_fast_path_fixed_spec), NaN for every non-numeral; (2) for every double string(x) is "
+              "NaN/Infinity/-Infinity/0 or '-' iff the sign bit is set, digits without superfluous leading zero, optionally '.' and "
+              "digits ending in a non-zero digit (toString_format), never overruns theBuffer when it has 347 bytes "
+              "(toString_no_overflow_all_doubles, formatSmallNumber_fits), and guarding the int64 cast changes no result "
+              "(cast_guard_equiv); (3) round trip: number(string(x)) = x for integral |x| < 10^8 unconditionally "
+              "(toString_roundtrip_partial) and for every x whose buffer reads back (readsBack, decidable per value: "
+              "toString_roundtrip_printf_partial — zero stripping provably preserves the value), which under the explicitly stated "
+              "17-significant-digit lemma Digits17Suffice holds for all |x| >~ 1e-19 (toString_roundtrip_digits17); (4) floor and "
+              "ceiling equal XPath 4.4 for every finite double and the repaired round equals it for every double "
+              "(floor_spec, ceiling_spec, round_fixed_spec, round_spec_generated). Deviations of the earlier code forms are kept as "
+              "counterexample theorems about those forms. Tie: translator + correspondence (library and ASan/UBSan builds vs Lean "
+              "driver vs exact-arithmetic oracle).")
+LEVEL_NOTE = ("Trusted: Lean kernel; axioms propext/Classical.choice/Quot.sound only; translate/c18_number_consts.py (regex recognition "
+              "of the transcribed forms: printf table, buffer sizes, thresholds, round variant, fast-path variant, cast guard, "
+              "formatSmallNumber); the hand transcription (validated by the correspondence run on ~34k quick / 1.8M thorough requests, "
+              "bounded by generator coverage). Modelled, not verified: glibc sprintf(\"%.Nf\"/\"%.17e\") = exact decimal expansion "
+              "rounded half-even, atof = nearest-even of the exact value (roundRat: fraction in lowest terms, then roundNE), "
+              "modf/floor/ceil exact, x86-64 cvttsd2si for an unguarded out-of-range int64 cast. Not proved in Lean: value-exactness "
+              "of roundNE for non-integers; Digits17Suffice (17 significant digits identify a double) is an explicit hypothesis of "
+              "toString_roundtrip_digits17, never an axiom; that formatSmallNumber's 18 digits read back is the decidable readsBack "
+              "hypothesis (evaluated on every sampled value by the oracle). Partial theorems are named _partial; strings with an "
+              "embedded NUL end there (c_str()), outside XML.")
 DESIGN_REF = "DESIGN.md section 5, C18; design/C18.md"
 
 P = "XalanModel.Props.C18."
@@ -59,12 +69,16 @@ THEOREMS = [P + n for n in (
     "toString_overflow_counterexample",
     "toString_roundtrip_counterexample_tiny",
     "toString_negative_tiny_counterexample",
+    "toString_tiny_fixed_examples",
     "toDouble_spec_partial",
     "toDouble_fast_path_partial",
     "toDouble_negative_zero_counterexample",
     "scalarToDecimal_exact",
     "toString_roundtrip_partial",
     "toString_roundtrip_printf_partial",
+    "toString_roundtrip_digits17",
+    "cast_guard_equiv",
+    "formatSmallNumber_fits",
     "all_doubles_canonical",
     "floor_spec",
     "ceiling_spec",
@@ -152,11 +166,13 @@ def judge_tostr(x, reply):
         return ("tostr.shape: x=%s out=%s" % (hx, t[:60]), "string(%r) = %r is not -?digits(.digits)? without superfluous zeros" % (x, t))
     if t.startswith("-") != (x < 0):
         if x < 0 and e10(x) <= -20:
-            return ("tostr.roundtrip[e10=%d]: x=%s out=%s" % (e10(x), hx, t[:60]), "string(%r) = %r: sign and value lost" % (x, t))
+            return ("tostr.roundtrip[e10=%d][frac<=35]: x=%s out=%s" % (e10(x), hx, t[:60]), "string(%r) = %r: sign and value lost" % (x, t))
         return ("tostr.sign: x=%s out=%s" % (hx, t[:60]), "string(%r) = %r: wrong sign" % (x, t))
     back = float(t)
     if G.bits_of(back) != G.bits_of(x):
-        return ("tostr.roundtrip[e10=%d]: x=%s out=%s" % (e10(x), hx, t[:60]),
+        # the recorded finding is the "%.35f" form running out of decimals; anything longer is a different defect
+        nfrac = len(t.partition(".")[2])
+        return ("tostr.roundtrip[e10=%d][frac%s]: x=%s out=%s" % (e10(x), "<=35" if nfrac <= 35 else "=%d" % nfrac, hx, t[:60]),
                 "number(string(x)) != x: x=%r string=%r reads back as %r" % (x, t, back))
     return None
 
